@@ -293,6 +293,8 @@ fn run_market_hist<const L: usize>(h: &MarketHeader, g: Option<&mut MGen>, fixed
         2 => run_market::<2, L, _>(h, g, fixed, n_ops, scratch, w),
         3 => run_market::<3, L, _>(h, g, fixed, n_ops, scratch, w),
         4 => run_market::<4, L, _>(h, g, fixed, n_ops, scratch, w),
+        // more than ten assets: two-digit asset indices (snapshot layouts keyed by index, index-ordered queries)
+        12 => run_market::<12, L, _>(h, g, fixed, n_ops, scratch, w),
         n => panic!("unsupported asset count {}", n),
     }
 }
